@@ -279,6 +279,12 @@ func (e StdEng) denseConcat(a DenseTensor, axis int, Ts []DenseTensor) (DenseTen
 	// special case
 	var start, end int
 	for _, T := range all {
+		if d, ok := T.(*Dense); ok {
+			// The loop body reshapes T and sets its mask aside while copying. T is an operand - it
+			// must not change, not even temporarily (other goroutines may be reading it): work on a
+			// shallow clone, which shares the data but has its own metadata.
+			T = d.ShallowClone()
+		}
 		end += T.Shape()[axis]
 		slices := make([]Slice, axis+1)
 		slices[axis] = makeRS(start, end)
